@@ -213,7 +213,8 @@ pub fn judge(acc: &mut Acc, wd: &mut Workdir, src: &str, origin: &str, assemble:
                     acc.count("x86_64_assembled_by_gnu_as");
                     let syms = symbols(&obj);
                     let stride = <axcut2x86_64::Backend as Config<axcut2x86_64::config::Temporary, axcut2x86_64::config::Immediate>>::jump_length(1).val as u64;
-                    for (table, k, next) in jump_tables(&asm.text, "jmp near") {
+                    // two or more consecutive jumps directly after a label are a table, however the jumps are written
+                    for (table, k, next) in jump_tables(&asm.text, "jmp ") {
                         if let (Some(a), Some(b)) = (syms.get(&table), syms.get(&next)) {
                             acc.count("jump_tables_measured");
                             if b - a != stride * k as u64 {
@@ -456,8 +457,67 @@ fn clash_variant(case: &FunCase) -> Option<String> {
     }
 }
 
+/// Tables are labelled `<type>_<n>` and their entries `<type>_<n>_<xtor>`; with underscores and
+/// digits in user names the label of one table can coincide with an entry label of another.  The
+/// numbers are process-global, so the program is compiled twice to learn the numbers the next
+/// compilation will draw, and then once more with names built from them.
+fn label_coincidence(acc: &mut Acc, wd: &mut Workdir) {
+    let src = |ctor: &str, ty2: &str, codata: bool| -> String {
+        if codata {
+            format!(
+                "codata T {{ {ctor}: i64, b: i64 }}\ncodata {ty2} {{ c: i64, d: i64 }}\ndef f(n: i64): T {{ new {{ {ctor} => n, b => 2 }} }}\ndef g(n: i64): {ty2} {{ new {{ c => n, d => 4 }} }}\ndef main(): i64 {{ println_i64((f(1).{ctor}) + (g(3).d)); 0 }}\n"
+            )
+        } else {
+            format!(
+                "data T {{ {ctor}, B }}\ndata {ty2} {{ C, D }}\ndef f(t: T): i64 {{ t.case {{ {ctor} => 1, B => 2 }} }}\ndef g(u: {ty2}): i64 {{ u.case {{ C => 3, D => 4 }} }}\ndef main(): i64 {{ println_i64(f({ctor}) + g(D)); 0 }}\n"
+            )
+        }
+    };
+    let numbers = |text: &str, ty2: &str| -> Option<(usize, usize)> {
+        let mut n1 = None;
+        let mut n2 = None;
+        for l in text.lines() {
+            let Some(l) = l.trim().strip_suffix(':') else { continue };
+            if let Some(d) = l.strip_prefix("T_") {
+                if let Ok(n) = d.parse::<usize>() {
+                    n1.get_or_insert(n);
+                }
+            }
+            if let Some(d) = l.strip_prefix(&format!("{ty2}_")) {
+                if let Ok(n) = d.parse::<usize>() {
+                    n2.get_or_insert(n);
+                }
+            }
+        }
+        Some((n1?, n2?))
+    };
+    for codata in [false, true] {
+        let (c0, t0) = if codata { ("a_0", "T_0_a") } else { ("A_0", "T_0_A") };
+        let mut seen = Vec::new();
+        for _ in 0..2 {
+            let Ok(st) = stages(&src(c0, t0, codata)) else { return };
+            let Ok(asm) = pipeline::x86(st.linear) else { return };
+            let Some(n) = numbers(&asm.text, t0) else {
+                acc.count("label_coincidence_numbers_not_found");
+                return;
+            };
+            seen.push(n);
+        }
+        let d = seen[1].0 - seen[0].0;
+        let (n1, n2) = (seen[1].0 + d, seen[1].1 + d);
+        let (ctor, ty2) = if codata { (format!("a_{n2}"), format!("T_{n1}_a")) } else { (format!("A_{n2}"), format!("T_{n1}_A")) };
+        let text = src(&ctor, &ty2, codata);
+        acc.evaluations += 1;
+        acc.count("label_coincidence_programs");
+        judge(acc, wd, &text, &format!("table label {ty2}_{n2} aimed at the entry label T_{n1}_{ctor}"), true);
+    }
+}
+
 pub fn run(ctx: &Ctx, acc: &mut Acc) {
     let mut wd = Workdir::new(&format!("c14-{}", ctx.shard));
+    if ctx.shard % 4 == 0 {
+        label_coincidence(acc, &mut wd);
+    }
     // the hand-written programs of the repository and the built-in ones
     for (k, (name, src)) in super::corpus::all_sources().iter().enumerate() {
         if k % ctx.nshards != ctx.shard {
